@@ -279,6 +279,62 @@ Proof.
 Qed.
 (* END *)
 
+(* ---------- swap.rs ---------- *)
+(* BEGIN Matrix_swap_major_axis_vectors *)
+Lemma for_res_ext {St} (f g : Z -> St -> res St) : (forall i s, f i s = g i s) -> forall l s, for_res l s f = for_res l s g.
+Proof. intros H. induction l as [|i l IH]; intros s; cbn [for_res]; [reflexivity|]. rewrite H. destruct (g i s); cbn [bind]; auto. Qed.
+Definition swap_outcome {A} (m : matrix A) (r : result (matrix A)) : matrix A * result unit :=
+  match r with Ok m' => (m', Ok tt) | Err e => (m, Err e) end.
+Ltac gsimp :=
+  repeat (first [rewrite gen_Matrix_major | rewrite gen_Matrix_minor | rewrite gen_Matrix_major_stride | rewrite gen_Matrix_minor_stride];
+          cbn [bind mview f_Matrix_shape]).
+Lemma gen_Matrix_swap_major_axis_vectors {A} c (m : matrix A) a b :
+  G_Matrix_swap_major_axis_vectors c m a b = let* r := swap_major_axis_vectors c m a b in Val (swap_outcome m r).
+Proof.
+  unfold G_Matrix_swap_major_axis_vectors, swap_major_axis_vectors, swap_nonoverlapping_m, mmajor, mminor, size. gsimp.
+  destruct (a >=? major (m_shape m)); cbn [orb bind]; [reflexivity|]. gsimp.
+  destruct (b >=? major (m_shape m)); cbn [bind]; [reflexivity|].
+  destruct (a =? b); [reflexivity|]. gsimp.
+  destruct (umul c a _) as [i|w|w]; cbn [bind]; try reflexivity. gsimp.
+  destruct (umul c b _) as [j|w|w]; cbn [bind]; try reflexivity. gsimp.
+  change (0 + i) with i. change (0 + j) with j.
+  destruct (negb _); cbn [bind]; [reflexivity|]. destruct (negb _); reflexivity.
+Qed.
+(* END *)
+(* BEGIN Matrix_swap_minor_axis_vectors *)
+Lemma gen_Matrix_swap_minor_axis_vectors {A} c (m : matrix A) a b :
+  G_Matrix_swap_minor_axis_vectors c m a b = let* r := swap_minor_axis_vectors c m a b in Val (swap_outcome m r).
+Proof.
+  unfold G_Matrix_swap_minor_axis_vectors, swap_minor_axis_vectors, mmajor, mminor. gsimp.
+  destruct (a >=? minor (m_shape m)); cbn [orb bind]; [reflexivity|]. gsimp.
+  destruct (b >=? minor (m_shape m)); cbn [bind]; [reflexivity|]. gsimp.
+  destruct (umul c a _) as [i|w|w]; cbn [bind]; try reflexivity. gsimp.
+  destruct (umul c b _) as [j|w|w]; cbn [bind]; try reflexivity. gsimp.
+  match goal with |- context [for_res ?l ?s ?f] =>
+    rewrite (for_res_ext f (fun k data => let* offset := umul c k (AxisShape_major_stride (m_shape m)) in
+                                          let* x := uadd c i offset in let* y := uadd c j offset in ptr_swap data x y))
+  end.
+  - destruct (for_res _ _ _); reflexivity.
+  - intros k s. cbv zeta. cbn [Z.add]. gsimp. unfold AxisShape_major_stride. res_cases.
+Qed.
+(* END *)
+(* BEGIN Matrix_swap_rows *)
+Lemma gen_Matrix_swap_rows {A} c (m : matrix A) a b :
+  G_Matrix_swap_rows c m a b = let* r := swap_rows c m a b in Val (swap_outcome m r).
+Proof.
+  unfold G_Matrix_swap_rows, swap_rows. destruct (m_order m);
+    [rewrite gen_Matrix_swap_major_axis_vectors|rewrite gen_Matrix_swap_minor_axis_vectors]; res_cases.
+Qed.
+(* END *)
+(* BEGIN Matrix_swap_cols *)
+Lemma gen_Matrix_swap_cols {A} c (m : matrix A) a b :
+  G_Matrix_swap_cols c m a b = let* r := swap_cols c m a b in Val (swap_outcome m r).
+Proof.
+  unfold G_Matrix_swap_cols, swap_cols. destruct (m_order m);
+    [rewrite gen_Matrix_swap_minor_axis_vectors|rewrite gen_Matrix_swap_major_axis_vectors]; res_cases.
+Qed.
+(* END *)
+
 (* ---------- iter/iter_mut.rs: the two pointer-level state machines ---------- *)
 (* BEGIN IterNthVectorMut_assemble *)
 Lemma gen_IterNthVectorMut_assemble c es al base bytes lower stride length :
